@@ -75,28 +75,25 @@ fn find_matching_bracket<'a>(
     tokens: &'a [Token],
     bracket: (usize, &'a Token),
 ) -> Option<&'a Token> {
-    let (have, want, mut iter): (TokenType, TokenType, Box<dyn Iterator<Item = &Token>>) =
-        match bracket.1.token_type {
-            TokenType::RightParen => (
-                TokenType::RightParen,
-                TokenType::LeftParen,
-                Box::new(tokens[..(bracket.0)].iter().rev()),
-            ),
-            TokenType::LeftParen => (
-                TokenType::LeftParen,
-                TokenType::RightParen,
-                Box::new(tokens[(bracket.0 + 1)..].iter()),
-            ),
-            _ => return None,
-        };
+    let is_open = |t: &TokenType| matches!(t, TokenType::LeftParen | TokenType::HashParen);
+    let is_close = |t: &TokenType| matches!(t, TokenType::RightParen);
+    let (closing, mut iter): (bool, Box<dyn Iterator<Item = &Token>>) = match bracket.1.token_type {
+        TokenType::RightParen => (true, Box::new(tokens[..(bracket.0)].iter().rev())),
+        TokenType::LeftParen | TokenType::HashParen => {
+            (false, Box::new(tokens[(bracket.0 + 1)..].iter()))
+        }
+        _ => return None,
+    };
+    let have = |t: &TokenType| if closing { is_close(t) } else { is_open(t) };
+    let want = |t: &TokenType| if closing { is_open(t) } else { is_close(t) };
 
     let mut stack = 0;
     for it in &mut *iter {
-        if it.token_type == have {
+        if have(&it.token_type) {
             stack += 1;
         }
 
-        if it.token_type == want {
+        if want(&it.token_type) {
             if stack == 0 {
                 return Some(it);
             } else {
